@@ -581,7 +581,7 @@ class Date(FormattableMixin, date):
         if day_of_week is None:
             return dt.set(day=1)
 
-        month = calendar.monthcalendar(dt.year, dt.month)
+        month = calendar.Calendar().monthdayscalendar(dt.year, dt.month)
 
         calendar_day = day_of_week
 
@@ -606,7 +606,7 @@ class Date(FormattableMixin, date):
         if day_of_week is None:
             return dt.set(day=self.days_in_month)
 
-        month = calendar.monthcalendar(dt.year, dt.month)
+        month = calendar.Calendar().monthdayscalendar(dt.year, dt.month)
 
         calendar_day = day_of_week
 
